@@ -22,7 +22,7 @@ def judge(run, prop, module, recs, name, fields_of_interest=None):
     for rec, bad in res["rejects"]:
         for f in bad:
             sig = {"kind": "oracle", "prop": prop, "algo": f, "enc": rec.get("enc"), "hist": rec.get("hist"), "dir": rec.get("dir"),
-                   "out_tag": rec[f][0] if isinstance(rec.get(f), list) and rec[f] else None,
+                   "out_tag": (rec.get(f) or rec.get(f.split("_")[0]) or [None])[0],
                    "n": rec.get("n"), "m": len(rec.get("E", []))}
             run.violation(sig, [rec], header={"exec": "oracle", "spec": module, "bad_fields": bad})
     return res
